@@ -7,6 +7,7 @@ import hashlib
 import json
 import os
 import re
+import shutil
 import subprocess
 import sys
 import time
@@ -134,6 +135,108 @@ def proof_step(pid, thorough):
         checker += f" && lake env leanchecker {mod}"
     return {"obligations": len(thms), "discharged": discharged, "theorems": thms, "checker_cmd": checker,
             "modules": sorted(files)}
+
+
+# ----------------------------------------------------------------------------------------
+# A'. the generated layer: /repo's leaf functions translated to Lean on every run
+
+TRANSLATE = os.path.join(VERIF, "translate")
+GEN_DIR = os.path.join(LEAN, "GoSSE", "Gen")
+GEN_EQUIV = "GoSSE.Proofs.GenEquiv"
+
+
+def _theorem_at(path, lineno):
+    """name of the theorem of a Lean file that contains the given line"""
+    name = None
+    for i, l in enumerate(open(path).read().splitlines(), 1):
+        m = re.match(r"\s*theorem\s+(\S+)", l)
+        if m:
+            if i > lineno:
+                break
+            name = m.group(1)
+    return name
+
+
+def _gen_errors(text, equiv_path):
+    bad = [l for l in text.splitlines() if "error" in l][:6]
+    names = []
+    for l in bad:
+        m = re.search(r"GenEquiv\.lean:(\d+):", l)
+        if m:
+            t = _theorem_at(equiv_path, int(m.group(1)))
+            if t and t not in names:
+                names.append(t)
+    head = ("theorems that no longer check: " + ", ".join("GoSSE.GenEquiv." + n for n in names) + "\n") if names else ""
+    return head + "\n".join(bad)
+
+
+def translate_step():
+    """Regenerate GoSSE/Gen/*.lean from REPO's current source with /verif/translate and re-check the theorems of
+    GoSSE/Proofs/GenEquiv.lean (each generated definition computes the hand-written model's function, without
+    panicking, for every input). For /repo the lake tree itself is regenerated; for a scratch copy (VERIF_REPO) the
+    generated files are compiled in a directory of their own, shadowing the lake tree's."""
+    binp = os.path.join(TRANSLATE, "translate")
+    rc, out, err = sh(["go", "build", "-o", binp, "."], cwd=TRANSLATE, env=GOENV)
+    if rc != 0:
+        raise Failure("translate", "the translator does not build", err[-1500:])
+    tag = "repo" if os.path.abspath(REPO) == "/repo" else hashlib.sha1(os.path.abspath(REPO).encode()).hexdigest()[:8]
+    tmp = os.path.join(WORK, "gen-" + tag)
+    shutil.rmtree(tmp, ignore_errors=True)
+    os.makedirs(tmp)
+    try:
+        rc, out, err = sh([binp, REPO, tmp])
+        if rc != 0:
+            raise Failure("translate", "the translator cannot translate the current source of the leaf functions "
+                          "(the model's tie to them is no longer checked)", (out + err)[-1500:])
+        names = sorted(os.listdir(tmp))
+        same = names == sorted(f for f in os.listdir(GEN_DIR) if f.endswith(".lean")) and all(
+            open(os.path.join(tmp, n)).read() == open(os.path.join(GEN_DIR, n)).read() for n in names)
+        funcs = []
+        for n in names:
+            funcs += re.findall(r"^/-- `([A-Za-z_0-9]+)` \(", open(os.path.join(tmp, n)).read(), flags=re.M)
+        info = {"generated_functions": funcs, "generated_text_changed": not same}
+        if os.path.abspath(REPO) == "/repo":
+            if not same:
+                for n in os.listdir(GEN_DIR):
+                    if n.endswith(".lean"):
+                        os.remove(os.path.join(GEN_DIR, n))
+                for n in names:
+                    shutil.copy(os.path.join(tmp, n), os.path.join(GEN_DIR, n))
+            rc, out, err = sh(["lake", "build", GEN_EQUIV], cwd=LEAN)
+            if rc != 0:
+                raise Failure("proof", "the definitions generated from /repo's source are no longer proved equal to the model "
+                              f"(lake build {GEN_EQUIV})",
+                              _gen_errors(out + err, os.path.join(LEAN, "GoSSE", "Proofs", "GenEquiv.lean")) or (out + err)[-2000:])
+        elif not same:
+            olean = os.path.join(tmp, "olean")
+            env = dict(os.environ, LEAN_PATH=olean + ":" + os.path.join(LEAN, ".lake", "build", "lib", "lean"))
+            # Lean resolves a package from the first search-path entry that has its directory: overlay the built tree
+            built = os.path.join(LEAN, ".lake", "build", "lib", "lean")
+            for d, _, fs in os.walk(os.path.join(built, "GoSSE")):
+                rel = os.path.relpath(d, built)
+                os.makedirs(os.path.join(olean, rel), exist_ok=True)
+                for fn in fs:
+                    if rel.endswith("Gen") or fn.startswith("GenEquiv."):
+                        continue
+                    os.symlink(os.path.join(d, fn), os.path.join(olean, rel, fn))
+            for fn in os.listdir(built):
+                if fn.startswith("GoSSE."):
+                    os.symlink(os.path.join(built, fn), os.path.join(olean, fn))
+            srcroot = os.path.join(tmp, "src")
+            for mod, orig in [("GoSSE.Gen.Parser", os.path.join(tmp, "Parser.lean")), ("GoSSE.Gen.Root", os.path.join(tmp, "Root.lean")),
+                              (GEN_EQUIV, os.path.join(LEAN, "GoSSE", "Proofs", "GenEquiv.lean"))]:
+                src = os.path.join(srcroot, *mod.split(".")) + ".lean"
+                os.makedirs(os.path.dirname(src), exist_ok=True)
+                shutil.copy(orig, src)
+                dst = os.path.join(olean, *mod.split(".")) + ".olean"
+                os.makedirs(os.path.dirname(dst), exist_ok=True)
+                rc, out, err = sh(["lean", "--root=" + srcroot, "-o", dst, src], cwd=srcroot, env=env)
+                if rc != 0:
+                    raise Failure("proof", "the definitions generated from the source are no longer proved equal to the model "
+                                  f"({mod})", _gen_errors(out + err, os.path.join(LEAN, "GoSSE", "Proofs", "GenEquiv.lean")) or (out + err)[-2000:])
+        return info
+    finally:
+        shutil.rmtree(tmp, ignore_errors=True)
 
 
 # ----------------------------------------------------------------------------------------
@@ -431,6 +534,11 @@ def main(argv):
     histf = prop.get("hist")
 
     try:
+        if prop.get("generated_layer"):
+            try:
+                cov.update(translate_step())
+            except Failure as f:
+                broken.append(f)
         try:
             proof = proof_step(pid, thorough)
         except Failure as f:
